@@ -224,6 +224,8 @@ def check_property(pid, tier, seed, replay_only=None):
         solver_ms += r.smt_ms
         fl = failures_of(ur)
         failed_names = set(f['function'] for f in fl)
+        for (lname, lmsg) in ur.unit.lost:
+            undecided.append('unit %s: %s: %s' % (u, lname, lmsg))
         # verus-level per-function status
         vf_fail = set(k.split('::')[-1] for k, v in r.functions.items() if v['success'] is False)
         for em in ur.unit.items:
